@@ -4,6 +4,7 @@
 // interface, the mathematical spec of the formats, the contracts and the proof hints.
 #![allow(unused_imports, unused_variables, unused_mut, dead_code, unused_parens, unused_braces, unused_assignments)]
 use vstd::prelude::*;
+use vstd::slice::*;
 use std::convert::TryInto;
 
 verus! {
